@@ -291,7 +291,7 @@ def main(argv):
 
     # ---------------- evidence
     fn_list, rewrites, trusted, samples, solver_ms, scan = [], [], [], [], {}, {}
-    obligations = discharged = known_failing = 0
+    obligations = discharged = known_failing = other_failing = 0
     known_names = set(k2 for k2 in known_obl_names)
     checker_cmds = []
     for ur in urs:
@@ -309,11 +309,14 @@ def main(argv):
         crate = os.path.basename(ur.path)[:-3]
         n_ob = sum(v for k, v in ur.res.obligations.items() if k.startswith(crate + '::'))
         n_fail = len([o for o in ur.obligs])
-        n_known = len([o for o in ur.obligs if o['name'] in known_names])
-        # obligations listed as known findings are reported separately and are not part of the proof claim
-        obligations += n_ob - n_known
+        n_known = len([o for o in ur.obligs if pid in o['props'] and o['name'] in known_names])
+        n_other = len([o for o in ur.obligs if pid not in o['props']])
+        # obligations listed as known findings, and failed obligations that belong to other properties only,
+        # are reported separately and are not part of this property's proof claim
+        obligations += n_ob - n_known - n_other
         discharged += max(0, n_ob - n_fail)
         known_failing += n_known
+        other_failing += n_other
         for k, v in ur.res.fn_times.items():
             solver_ms['%s:%s' % (ur.unit.name, k.split('::', 1)[-1])] = round(v['ms'], 1)
         for lab, inf in sorted(ur.g.labels.items()):
@@ -358,6 +361,7 @@ def main(argv):
             'bounded': [b for e in extra for b in e.get('bounded', [])],
             'known_findings_replayed': known_lines,
             'known_failing_obligations': known_failing,
+            'failing_obligations_of_other_properties_in_shared_units': other_failing,
             'undecided': [list(u) for u in undecided],
             'explanation': 'obligations = number of assert nodes in the initial AIR of every function/lemma of the units serving this property '
                            '(labelled contract clauses, loop invariants, callee preconditions, and the implicit index/unwrap/overflow/termination obligations); '
